@@ -262,9 +262,19 @@ class AnnotationDAGBuilder:
             if source in self._synthetic_nodes or dest in self._synthetic_nodes:
                 continue
 
-            method = get_callable_run_method(self._node_map[source])
+            node = self._node_map[source]
+            method = get_callable_run_method(node)
+            declared_params = set(method.__annotations__)
 
-            if 'additional_data' not in method.__annotations__:
+            # The run method of a node created by build_node carries only the dependencies of the target graph.
+            # The parameters the node really accepts are declared by the basic node(s) it was derived from.
+            generic_node = getattr(node, '__generic_class__', None)
+
+            while generic_node is not None:
+                declared_params |= set(getattr(get_callable_run_method(generic_node), '__annotations__', {}))
+                generic_node = getattr(generic_node, '__generic_class__', None)
+
+            if 'additional_data' not in declared_params:
                 raise errors.IncorrectParamsRecurrentNode(
                     f'В {method} отсутствует системный параметр "additional_data" для получения данных от узла, '
                     'который может перезапустить подграф',
